@@ -48,7 +48,7 @@ OBLIGATIONS = [
     # extension 4: from the definitions (from_dict / get_named_parameters / then / key-set check) to the graph
     "C15_named_parameters", "C15_from_dict_edges", "C15_from_dict_refuses_signature", "C15_from_dict_refuses_unknown",
     "C15_then_keeps_parents", "C15_from_dict_closures", "C15_from_dict_params_only", "C15_from_dict_accepts_iff",
-    "C15_from_dict_error_meaning", "C15_key_set_check", "C15_from_dict_source",
+    "C15_from_dict_error_meaning", "C15_key_set_check", "C15_from_dict_source", "C15_shipped_definitions",
 ]
 
 HDR = "From Coq Require Import List.\nFrom Leaspy Require Import Dag.DagModel.\nImport ListNotations.\n"
@@ -61,6 +61,12 @@ def translate(run: Run) -> bool:
     gs = tgraphs.write_gen(run)
     _GRAPHS_CACHE["graphs"] = gs
     ok_fd = tfromdict.translate(run)
+    if gs is not None:
+        try:
+            run.gen("GenC15Defs", cdefs.shipped_defs_coq(gs))
+        except (KeyError, ValueError, TypeError) as e:
+            run.broken("translate:GenC15Defs", f"{type(e).__name__}: {e}", kind="broken-translation")
+            return False
     return gs is not None and ok_fd
 
 
